@@ -281,8 +281,15 @@ class Universe:
                     if rnd.random() < 0.8:
                         attrs[a] = rnd.choice([7, 8, 9, 55, 7.5, 8.75])
                         attrs[b] = rnd.choice(vals)
+                # a booster may carry ordinary effects as well (also projectable ones: two projectors on one item)
+                extra = rnd.sample(self.effects, rnd.randint(0, 2))
+                effs = [eff, self.online] + extra
+                rnd.shuffle(effs)
+                for e2 in extra:
+                    for m2 in e2.modifiers:
+                        attrs.setdefault(m2.affector_attr_id, rnd.choice(vals))
                 t = ch.mktype(group_id=rnd.choice(self.groups), category_id=TypeCategoryId.module, attrs=attrs,
-                              effects=[eff, self.online], default_effect=eff)
+                              effects=effs, default_effect=eff)
                 self.types.setdefault('mh', []).append(t.id)
                 self.types.setdefault('mh_buff', []).append(t.id)
 
